@@ -698,6 +698,10 @@ def undefine_unused_variables(source: str, preserve: Collection[str] = frozenset
             yield name, ast.Name(id="_")
             yielded.add(name)
 
+    # Where _ is read, as in the gettext idiom, or is to be preserved, it is a name like any other
+    if "_" in preserve or any(core.walk(root, ast.Name(id="_", ctx=ast.Load))):
+        return
+
     for node in core.walk(
         root,
         (
@@ -910,9 +914,16 @@ def delete_pointless_statements(source: str) -> str:
     """
     ast_tree = core.parse(source)
     safe_callables = parsing.safe_callable_names(ast_tree)
+    # Where _ is read, as in the gettext idiom, what binds it is not pointless
+    underscore_is_read = any(core.walk(ast_tree, ast.Name(id="_", ctx=ast.Load)))
     for node in itertools.chain([ast_tree], parsing.iter_bodies_recursive(ast_tree)):
         for i, child in enumerate(node.body):
             if not core.has_side_effect(child, safe_callables):
+                if underscore_is_read and (
+                    getattr(child, "name", None) == "_"
+                    or any(core.walk(child, ast.Name(id="_", ctx=ast.Store)))
+                ):
+                    continue
                 if i > 0 or not _is_pointless_string(child):  # Docstring
                     yield child, None
 
